@@ -573,22 +573,13 @@ class Program:
         if depth > 3:
             return None
         if isinstance(e, ast.Name):
-            for n in ast.walk(func.node):
-                if isinstance(n, ast.Assign) and isinstance(n.value, ast.Dict):
-                    for t in n.targets:
-                        if isinstance(t, ast.Name) and t.id == e.id:
-                            return n.value
-                if isinstance(n, ast.Assign) and isinstance(n.value, ast.Subscript):
-                    for t in n.targets:
-                        if isinstance(t, ast.Name) and t.id == e.id:
-                            return self._find_dict(n.value.value, func, cn,
-                                                   depth + 1)
-            for tree in (self.modules[func.module],):
-                for n in tree.body:
-                    if isinstance(n, ast.Assign) and isinstance(n.value, ast.Dict):
-                        for t in n.targets:
-                            if isinstance(t, ast.Name) and t.id == e.id:
-                                return n.value
+            tab = self._dict_tab(func)
+            v = tab.get(e.id)
+            if isinstance(v, ast.Dict):
+                return v
+            if v is not None:
+                return self._find_dict(v, func, cn, depth + 1)
+            return self._mod_dicts(func.module).get(e.id)
         if isinstance(e, ast.Attribute):
             owner = None
             if isinstance(e.value, ast.Name) and e.value.id in ('self', 'cls'):
@@ -612,6 +603,34 @@ class Program:
                                             t.value.id == 'self':
                                         return n.value
         return None
+
+    def _dict_tab(self, func):
+        c = self.__dict__.setdefault('_dtab', {})
+        if func.qual not in c:
+            tab = {}
+            for n in ast.walk(func.node):
+                if isinstance(n, ast.Assign):
+                    for t in n.targets:
+                        if isinstance(t, ast.Name):
+                            if isinstance(n.value, ast.Dict):
+                                tab[t.id] = n.value
+                            elif isinstance(n.value, ast.Subscript) and \
+                                    t.id not in tab:
+                                tab[t.id] = n.value.value
+            c[func.qual] = tab
+        return c[func.qual]
+
+    def _mod_dicts(self, rel):
+        c = self.__dict__.setdefault('_mdict', {})
+        if rel not in c:
+            tab = {}
+            for n in self.modules[rel].body:
+                if isinstance(n, ast.Assign) and isinstance(n.value, ast.Dict):
+                    for t in n.targets:
+                        if isinstance(t, ast.Name):
+                            tab[t.id] = n.value
+            c[rel] = tab
+        return c[rel]
 
     def resolve_call(self, call, env, func):
         """-> list of Func (possibly empty = external/builtin), or None when the
